@@ -33,7 +33,25 @@ KNOBS = {
 
 
 def gen(rs: int, tier: str, index: int) -> dict:
-    return gen_worker_script(rs, KNOBS)
+    s = gen_worker_script(rs, KNOBS)
+    from sim.rng import stream
+    r = stream(rs, "c01late")
+    if r.random() < 0.25 and s["messages"]:
+        # a shared task that is registered only after the workers started (e.g. imported by a startup handler)
+        at = r.choice([1, 100, 10_000, 200_000])
+        s["late_tasks"] = [{"name": "late0", "at_us": at, "ctx": r.random() < 0.5, "sync": False, "deps": [], "root": []}]
+        for m in s["messages"]:
+            if m.get("kind", "valid") == "valid" and r.random() < 0.5:
+                m["task_name"] = "late0"
+                m["via_default_broker"] = True
+                m["send_at_us"] = max(m["send_at_us"], at + 1)
+                m.pop("pool_delay_us", None)
+                m.pop("dep_us", None)
+                m.pop("dep_fail", None)
+                for a in m.get("attempts", []):
+                    if a.get("out", ["ret"])[0] == "requeue":
+                        a["out"] = ["ret"]
+    return s
 
 
 def oracle(script: dict, run: Any) -> List[Violation]:
@@ -77,7 +95,7 @@ def oracle(script: dict, run: Any) -> List[Violation]:
 def probes(script: dict, run: Any) -> Dict[str, int]:
     h = Hist(run)
     res = {"malformed_skipped": 0, "unknown_skipped": 0, "stop_with_backlog": 0, "max_tasks_reached": 0,
-           "take_after_stop": 0, "poll_timeout_path": 0}
+           "take_after_stop": 0, "poll_timeout_path": 0, "late_registered_task_executed": 0}
     for t in h.takes():
         m = h.msg(script, t[5]["k"])
         if m.get("kind") == "malformed" and h.of(t[4], "cb_exit"):
@@ -100,6 +118,9 @@ def probes(script: dict, run: Any) -> Dict[str, int]:
             res["max_tasks_reached"] = 1
     if run.sim_us > 400_000:
         res["poll_timeout_path"] = 1
+    late = {m["k"] for m in script["messages"] if m.get("task_name") == "late0"}
+    if any(t[5]["k"] in late and h.of(t[4], "fn_enter") for t in h.takes()):
+        res["late_registered_task_executed"] = 1
     return res
 
 
